@@ -40,7 +40,7 @@ struct MCE {
     bool pq = false, pu = false, pz = false; std::vector<Key> pdv, pce;
     int flag = 0;                   // 0 false, 1 true, 2 unknown (don't-care after copy)
     long val = 0;
-    std::string cause = "alloc";    // op kind that last decided the flag (violation attribution)
+    const char* cause = "alloc";    // op kind (string literal) that last decided the flag (violation attribution)
     long ver = 0, verSeen = 0; long long realVer = -1;
     bool hasPre() const { return pq || pu || pz || !pdv.empty() || !pce.empty(); }
     const char* kind() const {
